@@ -50,10 +50,11 @@ Finish(a) ==
   /\ hist' = Append(hist, [op |-> "args", ids |-> a])
   /\ UNCHANGED <<locs, named, uses, decl, lmap>>
 
-Use(id) ==
+\* the body names a local by reading, writing or tee-ing it (all three make it a used local)
+Use(id, how) ==
   /\ pc = "body" /\ Len(uses) < MaxUses /\ id \in Ids
   /\ uses' = Append(uses, id)
-  /\ hist' = Append(hist, [op |-> "use", id |-> id])
+  /\ hist' = Append(hist, [op |-> "use", id |-> id, how |-> how])
   /\ UNCHANGED <<locs, named, args, pc, decl, lmap>>
 
 \* ids of a set in increasing order
@@ -84,7 +85,7 @@ Arrangements(S, n) == IF n = 0 THEN {<<>>} ELSE {<<>>} \cup UNION {{<<x>> \o r :
 Next ==
   \/ \E t \in TypeSet, nm \in BOOLEAN : AddLocal(t, nm)
   \/ \E a \in Arrangements(Ids, MaxParams) : Finish(a)
-  \/ \E id \in Ids : Use(id)
+  \/ \E id \in Ids, how \in {"get", "set", "tee"} : Use(id, how)
   \/ Emit
 Spec == Init /\ [][Next]_lvars
 
